@@ -570,8 +570,8 @@ Proof. split; reflexivity. Qed.
                     embedded domain names lower-cased.
    [rr_wire ls r rd]   the RFC 1035 record: owner wire_name ls, TYPE, CLASS, TTL,
                     RDLENGTH, RDATA rd (C01).
-   [fields_canon], [present], [values_ok], [plain_fields2], [layout_ok],
-   [sides_agree]     as in Props/C01.v.
+   [fields_canon], [present], [plain_fields2], [layout_ok], [sides_agree]
+                    as in Props/C01.v.
    [sep_ok ps]      in the layout ps a field packed as a name is packed by no other
                     statement, the gateway type is an integer field of ps, and
                     there is no EDNS0 option list. *)
@@ -620,14 +620,14 @@ Print Assumptions rdata_fields_agree_iff_lowercased_octets_equal.
 (* THE WIRE CLAUSE, partial.  Full clause: for ALL records obtained from the wire,
    IsDuplicate r1 r2 iff TYPE, CLASS, lower-cased uncompressed owner octets and
    lower-cased uncompressed RDATA octets are equal.
-   Proved: for two records returned by UnpackRR, each under the conditions of
-   C01's [record_converse] -- owner written out in full (wire_name ls), RDLENGTH
+   Proved: for two records returned by UnpackRR, each under exactly the conditions
+   of C01's [record_converse] -- owner written out in full (wire_name ls), RDLENGTH
    not 0, unpack() ran through all its statements ([present]), canonical RDATA
-   encodings ([plain_fields2]; [values_ok]: APL addresses masked) -- and of any
+   encodings ([plain_fields2], which includes: APL addresses masked) -- and of any
    type but OPT:
      - the record's octets msg[off:off'] are rr_wire ls r rd where rd is what pack()
        writes for the decoded RDATA without compression (anywhere);
-     - the decoded RDATA with its names lower-cased is packed too, to ln;
+     - the decoded RDATA with its names lower-cased is packed too, to ln, as long as rd;
      - IsDuplicate r1 r2 = true  <->  TYPE, CLASS equal, lower-cased owner octets
        equal, ln1 = ln2.
    Not covered, and why (each is a _refuted theorem below or above unless said):
@@ -648,21 +648,21 @@ Theorem wire_duplicate_iff_lowercased_octets_equal_partial :
     valid_wire ls1 = true -> o1 + lenN (wire_name ls1) <= lenN m1 ->
     take_at m1 o1 (lenN (wire_name ls1)) = wire_name ls1 ->
     plain_fields2 (tl_pack L1) (tl_unpack L1) [] (takeN o1' m1) (o1 + lenN (wire_name ls1) + 10) ->
-    present (tl_pack L1) (rr_data r1) -> values_ok (rr_data r1) (tl_pack L1) ->
+    present (tl_pack L1) (rr_data r1) ->
     wfb m2 -> unpack_rr m2 o2 = Ok (r2, o2') ->
     find_layout layouts (rr_kind r2) = Some L2 -> rr_kind r2 <> "OPT"%string -> rr_rdlength r2 <> 0 ->
     valid_wire ls2 = true -> o2 + lenN (wire_name ls2) <= lenN m2 ->
     take_at m2 o2 (lenN (wire_name ls2)) = wire_name ls2 ->
     plain_fields2 (tl_pack L2) (tl_unpack L2) [] (takeN o2' m2) (o2 + lenN (wire_name ls2) + 10) ->
-    present (tl_pack L2) (rr_data r2) -> values_ok (rr_data r2) (tl_pack L2) ->
+    present (tl_pack L2) (rr_data r2) ->
     65855 <= cap ->
     exists rd1 ln1 rd2 ln2 : bytes,
       (take_at m1 o1 (o1' - o1) = rr_wire ls1 r1 rd1 /\
        packs_to (tl_pack L1) (rr_data r1) cap rd1 /\
-       packs_to (tl_pack L1) (lower_names (tl_pack L1) (rr_data r1)) cap ln1) /\
+       packs_to (tl_pack L1) (lower_names (tl_pack L1) (rr_data r1)) cap ln1 /\ lenN ln1 = lenN rd1) /\
       (take_at m2 o2 (o2' - o2) = rr_wire ls2 r2 rd2 /\
        packs_to (tl_pack L2) (rr_data r2) cap rd2 /\
-       packs_to (tl_pack L2) (lower_names (tl_pack L2) (rr_data r2)) cap ln2) /\
+       packs_to (tl_pack L2) (lower_names (tl_pack L2) (rr_data r2)) cap ln2 /\ lenN ln2 = lenN rd2) /\
       (is_duplicate r1 r2 = Ok true <->
        rr_type r1 = rr_type r2 /\ rr_class r1 = rr_class r2 /\
        lower_bytes (wire_name ls1) = lower_bytes (wire_name ls2) /\ ln1 = ln2).
@@ -712,9 +712,9 @@ Theorem wire_clause_opt_refuted : wire_verdict 41 "OPT" [0; 10; 0; 2; 1; 2] [0; 
 Proof. exact opt_same_octets_witness. Qed.
 Print Assumptions wire_clause_opt_refuted.
 
-(* [values_ok] cannot be dropped from the theorem: APL 1:10.1.1.1/8 and 1:10.0.0.0/8
-   are not duplicates (and their wire octets differ), but pack() writes 00 01 08 01 0a
-   for both *)
+(* the APL condition of [plain_fields2] (no address bits beyond the prefix) cannot
+   be dropped: APL 1:10.1.1.1/8 and 1:10.0.0.0/8 are not duplicates (and their wire
+   octets differ), but pack() writes 00 01 08 01 0a for both *)
 Theorem repacked_octets_apl_unmasked_refuted :
   wire_verdict 42 "APL" [0; 1; 8; 4; 10; 1; 1; 1] [0; 1; 8; 1; 10] false /\
   match unpack_rr (rrw 42 [0; 1; 8; 4; 10; 1; 1; 1]) 0, unpack_rr (rrw 42 [0; 1; 8; 1; 10]) 0 with
